@@ -408,6 +408,29 @@ func (v *Verifier) verifyFunc(key string) (rep *FuncReport) {
 		rep.Unsupported = "no body"
 		return
 	}
+	// the closure returned by an iterator function is verified against the canonical loop of the iter clauses
+	if litN > 0 {
+		if parent := v.contracts.Funcs[base]; parent != nil && parent.Iter != nil {
+			if spec == nil {
+				spec = &FuncSpec{Key: key, Loops: map[int]*LoopSpec{}, Sites: map[string]*LoopSpec{}}
+			} else {
+				cp := *spec
+				spec = &cp
+			}
+			yname := "yield"
+			if len(ftype.Params.List) > 0 && len(ftype.Params.List[0].Names) > 0 {
+				yname = ftype.Params.List[0].Names[0].Name
+			}
+			extra, err := v.iterEnsures(parent, yname)
+			if err != nil {
+				rep.Unsupported = err.Error()
+				return
+			}
+			spec.Ensures = append(append([]Clause(nil), spec.Ensures...), extra...)
+			spec.Requires = append(append([]Clause(nil), parent.Requires...), spec.Requires...)
+			fx.spec = spec
+		}
+	}
 	// abstract function-typed parameters: register their trace columns
 	for o := range st.env {
 		if sig, ok := o.Type().Underlying().(*types.Signature); ok {
